@@ -492,7 +492,7 @@ def _tpm_rsa_pub_area(b: _Build, pub) -> bytes:
 
 
 def _tpm_ecc_pub_area(b: _Build, pub) -> bytes:
-    if b.has("T.unique-ne-modulus") or b.has("T.exponent-ne"):
+    if b.has("T.unique-ne-modulus") or b.has("T.exponent-ne") or b.has("T.exponent-zero-key-e-ne-default"):
         raise NotApplicable("RSA pubArea fault with an EC key")
     shown = _other_key(b.cred.priv).public_key() if b.has("T.unique-ne-xy") else pub
     curve_id = tpm.CURVE_ID[pub.curve.name]
